@@ -68,7 +68,9 @@ impl ToBoxLang for Vec<ds::Horizontal> {
                 // Nothing to flush.
                 return;
             };
-            let current_font: i32 = current_font.try_into().unwrap();
+            // Same conversion as for a single character (ToBoxLang for ds::Char): the language
+            // writes fonts above i32::MAX as negative integers.
+            let current_font = current_font as i32;
             out.push(ast::Horizontal::Chars(ast::Chars {
                 content: Cow::<str>::Owned(buf.clone()).into(),
                 font: current_font.into(),
